@@ -187,6 +187,8 @@ def handleXf (j : Json) : Except String Verdict := do
     (if srcEmpty then ["src-empty"] else []) ++
     (if explicitRange src.rep src.levels then ["src-explicit-range"] else []) ++
     (if op.name == "swap" && src.allEmpty.getD op.k false then ["swap-empty-branch"] else []) ++
+    (if op.name == "unflatten" && (match src.rep[op.k]? with | some (.n _) => true | _ => false)
+     then ["unflatten-entry-not-tuple"] else []) ++
     (if src.mt.fmts.any (· == Fmt.U) then ["fmtU"] else []) ++
     (if src.mt.mutable then ["mutable"] else []) ++
     (if src.mt.dflt != 0 then ["dflt-nonzero"] else []) ++
